@@ -44,7 +44,8 @@ func c07bBody(r *simcore.Run) {
 	cfg.IdxNodeSize = 4096
 	cfg.sig(r)
 	r.Logf("cfg %+v (sync replication)", cfg)
-	ctx := context.Background()
+	ctx, cancelRun := context.WithCancel(context.Background())
+	r.OnStop(cancelRun)
 
 	nRep := 1 + r.Intn(2)
 	acks := 1 + r.Intn(nRep)
@@ -190,10 +191,10 @@ func c07bBody(r *simcore.Run) {
 					r.Fault("replica-restart")
 					after, _ := reps[i].CurrentState()
 					r.Logf("%s: restarted: committed %d -> %d, precommitted %d -> %d", name, before.TxId, after.TxId, before.PrecommittedTxId, after.PrecommittedTxId)
-					if after.TxId >= before.TxId && after.PrecommittedTxId < before.PrecommittedTxId && discarded[i] {
+					if after.TxId >= before.TxId && (after.PrecommittedTxId < before.PrecommittedTxId || (after.PrecommittedTxId == before.PrecommittedTxId && !bytes.Equal(after.PrecommittedTxHash, before.PrecommittedTxHash))) && discarded[i] {
 						// discarding does not rewind the tx log: the discarded transactions stay in front of
 						// the ones fetched afterwards, and the recovery at open stops at the first mismatch
-						r.Finding("replica-lost-acknowledged", "C07:discarded-precommits-reloaded-at-restart", "replica %d held durably precommitted tx %d before a clean restart and %d after it: earlier it had discarded precommitted transactions, which stay in the tx log in front of the transactions fetched afterwards; the recovery at open reloads the discarded ones and drops the later, acknowledged ones", i, before.PrecommittedTxId, after.PrecommittedTxId)
+						r.Finding("replica-lost-acknowledged", "C07:discarded-precommits-reloaded-at-restart", "replica %d held durably precommitted tx %d before a clean restart and %d after it: earlier it had discarded precommitted transactions, which stay in the tx log in front of the transactions fetched afterwards; the recovery at open reloads the discarded ones and drops the later, acknowledged ones (same id with another accumulated hash: %v)", i, before.PrecommittedTxId, after.PrecommittedTxId, after.PrecommittedTxId == before.PrecommittedTxId)
 						r.EndRun()
 					}
 					if after.TxId < before.TxId || after.PrecommittedTxId < before.PrecommittedTxId {
@@ -217,6 +218,12 @@ func c07bBody(r *simcore.Run) {
 					case strings.Contains(err.Error(), "replica precommit state diverged"):
 						r.Logf("%s: primary reports a diverged precommit state: discarding since %d", name, st.TxId+1)
 						if err := reps[i].DiscardPrecommittedTxsSince(st.TxId + 1); err != nil {
+							if strings.Contains(err.Error(), "allowed to be committed") {
+								// transactions whose commit the primary already allowed are about to be committed:
+								// the discard is refused as a whole and tried again in a later round
+								r.Probe("c07b-discard-refused-allowed-range")
+								continue
+							}
 							r.Violation("discard", "", "replica %d: DiscardPrecommittedTxsSince(%d) failed: %v", i, st.TxId+1, err)
 						}
 						after, _ := reps[i].CurrentState()
